@@ -16,6 +16,12 @@ pub fn verif_dir() -> PathBuf {
     std::env::var("VERIF_DIR").map(PathBuf::from).unwrap_or_else(|_| PathBuf::from("/verif"))
 }
 
+/// Where evidence and replay files go (default: the verif directory itself). Sensitivity runs
+/// against scratch trees point this elsewhere so that committed evidence is never overwritten.
+pub fn out_dir() -> PathBuf {
+    std::env::var("VERIF_OUT_DIR").map(PathBuf::from).unwrap_or_else(|_| verif_dir())
+}
+
 pub fn workers() -> usize {
     std::env::var("VERIF_WORKERS")
         .ok()
@@ -318,7 +324,7 @@ pub fn shrink(scn: &dyn Scenario, tier: Tier, index: u64, class: &str, tape: Vec
 pub fn write_replay(scn: &dyn Scenario, tier: Tier, seed: u64, index: u64, original_len: usize, shrink_execs: u64, tape: &[u64]) -> (PathBuf, Violation, u64) {
     let r = execute(scn, Tape::from_values(tape.to_vec()), tier, true, index);
     let v = r.verdict.clone().err().unwrap_or_else(|| Violation::new("none", "replay did not fail"));
-    let dir = verif_dir().join("replays");
+    let dir = out_dir().join("replays");
     let _ = std::fs::create_dir_all(&dir);
     let path = dir.join(format!("{}-{}-seed{}-run{}.json", scn.property(), scn.name(), seed, index));
     let j = J::obj()
